@@ -204,6 +204,9 @@ func (r *Run) Finish() {
 
 	// replay files
 	replayDir := filepath.Join(vd, "replay")
+	if d := os.Getenv("VERIF_REPLAY_DIR"); d != "" {
+		replayDir = d // self-tests on scratch copies keep their replay files with the copy
+	}
 	os.MkdirAll(replayDir, 0o755)
 	old, _ := filepath.Glob(filepath.Join(replayDir, r.Prop+"-*.json"))
 	for _, f := range old {
